@@ -44,6 +44,7 @@ Fixpoint n0eval_sum (items : list pstr) (acc : Z) (orig : pstr) : ev :=
   | it :: r =>
     if pstr_eqb it s_new then EvStr orig
     else if pstr_eqb it s_last then n0eval_sum r (acc - 1)%Z orig
+    else if mem_chr 46 it then EvUnk          (* '.' in item: float(item) is tried instead of int(item) *)
     else match py_int it with
          | IntOk z => n0eval_sum r (acc + z)%Z orig
          | IntFail => EvStr orig
